@@ -53,7 +53,13 @@ def _segs():
     mixed_valid = st.lists(st.sampled_from(PREFIX_FREE), min_size=2, max_size=5, unique_by=tuple)
     mixed_any = st.lists(st.lists(nib, max_size=3), max_size=5)
     hostile = st.lists(st.sampled_from(HOSTILE), min_size=1, max_size=3, unique_by=tuple)
-    return st.one_of(leaf, ext, ext, branch, branch, branch, branch, mixed_valid, mixed_valid, mixed_any, hostile)
+    # a short segment and a long one (8..13 nibbles) that starts with it, plus bystanders
+    nested_long = st.builds(
+        lambda a, ext, others, flip: ([a, a + ext] if flip else [a + ext, a]) + others,
+        st.lists(nib, min_size=1, max_size=4), st.lists(nib, min_size=5, max_size=9),
+        st.lists(st.lists(nib, min_size=1, max_size=10), max_size=2), st.booleans())
+    return st.one_of(leaf, ext, ext, branch, branch, branch, branch, mixed_valid, mixed_valid, mixed_any, hostile,
+                     nested_long)
 
 
 def strategy(tier):
